@@ -21,6 +21,8 @@ DOC = {
  "C11.R3": "index pairing: member removal -> emptiness test -> remove_group_from_index on every path of the empty edge; entry removed only if members and listeners are empty; joins that accepted someone add the group to the index",
  "C11.R4": "the pg state static is referenced only by its accessor, which is called only inside ractor::pg",
  "C11.R5": "no supervision-port send while a DashMap entry/ref guard is held; no guard across a yield; lock-order acyclic (shared with C06.R7)",
+ "C11.R7": "every removal of a group entry from the forward map is an OccupiedEntry::remove dominated by the true edges of members.is_empty() and listeners.is_empty() of that body; scope-monitor entries likewise by their vector's is_empty()",
+ "C11.R8": "the reverse index shrinks only in remove_empty_actor_relations (empty under the lock + same Arc); that helper is called only on the exit path or on a status edge that excludes Unstarted..Draining",
  "C11.R6": "which_groups / which_scopes / which_scopes_and_groups filter on non-empty members; which_scoped_groups reads the index",
 }
 
@@ -240,6 +242,96 @@ def r6(run, db):
     run.check(len(g) == 1 and "index" in field_names(f, g[0].args[0]) or len(g) == 1, "which_scoped_groups|reads-index", "which_scoped_groups reads the scope index", None, f.where())
 
 
+def entry_removals(db):
+    """(fn, call, value type) of every DashMap entry/key removal in ractor::pg"""
+    out = []
+    for f in db.crate_fns("ractor"):
+        if not f.id.startswith("ractor::pg::") or "::tests::" in f.id:
+            continue
+        for c in f.calls():
+            if c.matches(r"OccupiedEntry::<'a, K, V>::(remove|remove_entry)$|DashMap::<K, V, S>::(remove|remove_if|remove_if_mut|retain|clear)$"):
+                p = op_place(c.args[0])
+                ty = place_ty(db, f, p) if p else ""
+                if not ty and p:
+                    ty = f.local_ty(p[0])
+                out.append((f, c, ty or ""))
+    return out
+
+
+def r7(run, db):
+    """a group's map entry (members + listeners) may disappear only when it is empty: whoever removes it has just seen both
+    the member map and the listener vector of that very entry empty (C11-4: a refused join deleted a populated group)"""
+    gs, rel = pg_fields(db)
+    ng = nw = 0
+    for f, c, ty in entry_removals(db):
+        if "GroupState" in ty:
+            ng += 1
+            me = [x for x in f.calls() if x.matches(r"HashMap::<K, V, S, A>::is_empty$") and gs["members"] in field_names(f, x.args[0])]
+            le = [x for x in f.calls() if x.matches(r"Vec::<T, A>::is_empty$") and gs["listeners"] in field_names(f, x.args[0])]
+            okm = any(true_edge(f, x) and f.edge_dominates(true_edge(f, x), c.site) for x in me)
+            okl = any(true_edge(f, x) and f.edge_dominates(true_edge(f, x), c.site) for x in le)
+            run.check(okm and okl and c.matches(r"OccupiedEntry"), "group-entry-removed-only-empty:%s" % f.id.split("::")[-1],
+                      "%s removes the group entry only after seeing members and listeners empty (under the entry guard)" % f.id.split("::")[-1],
+                      "%s removes a group's map entry without having seen %s empty: live members (or monitors) of the group vanish from every view without any Leave" % (
+                          f.id.split("::")[-1], " and ".join(w for w, k in (("members", okm), ("listeners", okl)) if not k) or "them (not through the held entry)"), c.where())
+        elif re.search(r"Vec<ractor::actor::actor_cell::ActorCell>", ty) and "ActorId" not in ty.split("Vec<")[0][-40:]:
+            nw += 1
+            le = [x for x in f.calls() if x.matches(r"Vec::<T, A>::is_empty$")]
+            ok = any(true_edge(f, x) and f.edge_dominates(true_edge(f, x), c.site) for x in le)
+            run.check(ok and c.matches(r"OccupiedEntry"), "world-entry-removed-only-empty:%s" % f.id.split("::")[-1], "%s removes a scope-monitor entry only when its listener vector is empty" % f.id.split("::")[-1],
+                      "%s removes a scope-monitor entry that may still hold listeners" % f.id.split("::")[-1], c.where())
+    run.anchor("group entry removals", ng, 6)
+    run.anchor("scope-monitor entry removals", nw, 3)
+
+
+def r8(run, db):
+    """the reverse index (actor -> its relations) loses an entry only through remove_empty_actor_relations, which re-checks
+    emptiness under the relations lock and pointer identity, and which is invoked only for actors that are past Draining
+    (C11-3: dropping the record of a live actor orphans a membership a concurrent join is about to write into it)"""
+    helper = run.need(db.fn("ractor::pg::remove_empty_actor_relations"), "pg::remove_empty_actor_relations")
+    n = 0
+    for f, c, ty in entry_removals(db):
+        if "ActorRelations" not in ty:
+            continue
+        n += 1
+        run.check(f.id == helper.id, "reverse-index-removal-in:%s" % f.id.split("::")[-1], "the reverse index is shrunk only by remove_empty_actor_relations",
+                  "%s removes an actor's record from the reverse index itself: for a live actor a concurrent join/monitor may hold that record and add a relationship to it after it became unreachable, so the exit cleanup never finds it" % f.id, c.where())
+        if f.id == helper.id:
+            ie = [x for x in f.calls() if x.callee and x.callee.endswith("ActorRelations::is_empty")]
+            pe = [x for x in f.calls() if x.matches(r"Arc::<T, A>::ptr_eq$")]
+            lk = [x for x in f.calls() if x.callee == "ractor::pg::lock_relations"]
+            ok = bool(ie and pe and lk) and f.edge_dominates(true_edge(f, ie[0]), c.site) and f.edge_dominates(true_edge(f, pe[0]), c.site) and f.dominates(lk[0].site, ie[0].site)
+            run.check(ok, "helper|empty-under-lock-and-same-arc", "the helper removes only an empty record (tested under its lock) that is the very Arc the caller holds", "helper guard changed", c.where())
+    run.anchor("reverse index removals", n, 1)
+    # call sites
+    exit_path = {"ractor::pg::leave_all", "ractor::pg::demonitor_all"}
+    cs = db.calls_of(helper.id)
+    run.anchor("remove_empty_actor_relations call sites", len(cs), 4)
+    for c in cs:
+        f = c.fn
+        nm = f.id.split("::")[-1]
+        if f.id in exit_path:
+            run.ok("helper-caller:%s|exit-path" % nm, "%s runs on the exit path only (C06.R5: after Stopping was published)" % nm, c.where())
+            continue
+        sts = [s for s in status_tests(f) if any(r["k"] == "call" and r["call"].is_("get_status") for r in s["subject"])]
+        def past_draining(site):
+            for s in sts:
+                for edge, pol in ((s["true_edge"], True), (s["false_edge"], False)):
+                    if edge and f.edge_dominates(edge, site):
+                        sat = [v for v in ("Unstarted", "Starting", "Running", "Upgrading", "Draining") if status_sat(s["op"], s["const"], v) == pol]
+                        if not sat:
+                            return True
+            return False
+        if past_draining(c.site):
+            run.ok("helper-caller:%s|status-gated" % nm, "%s calls the helper only on a status edge that excludes Unstarted..Draining" % nm, c.where())
+            continue
+        # join_scoped: the (id, relations) pairs handed to the helper are collected only on such an edge
+        pushes = [x for x in f.calls() if x.matches(r"Vec::<T, A>::push$") and "ActorRelations" in " ".join(x.gargs)]
+        good = bool(pushes) and all(past_draining(x.site) for x in pushes) and f.in_cycle(c.site)
+        run.check(good, "helper-caller:%s|collected-on-stopped-edge" % nm, "%s hands the helper only records collected on a status edge that excludes Unstarted..Draining" % nm,
+                  "%s drops reverse-index records of actors that may still be live" % f.id, c.where())
+
+
 Q = ["dflt"]
 TH = ["dflt", "rc", "atr", "astd"]
-RULES = [{"id": "C11.R%d" % i, "fn": f, "quick": Q, "thorough": TH} for i, f in enumerate([r1, r2, r3, r4, r5, r6], 1)]
+RULES = [{"id": "C11.R%d" % i, "fn": f, "quick": Q, "thorough": TH} for i, f in enumerate([r1, r2, r3, r4, r5, r6, r7, r8], 1)]
